@@ -1,5 +1,6 @@
 import LlgoVerif.Lemmas.CoreGo
 import LlgoVerif.Lemmas.OrderFix
+import LlgoVerif.Lemmas.Blocks
 /-!
 # C01 — compiled programs behave as the Go language specifies (core language)
 
@@ -14,7 +15,7 @@ toolchain and through the reference evaluator `CoreGo.run` (checks/c01.py).  The
   (`fixOrder_safe` and its parts), for all blocks.
 -/
 namespace LlgoVerif.C01
-open LlgoVerif.CoreGo LlgoVerif.OrderFix
+open LlgoVerif.CoreGo LlgoVerif.OrderFix LlgoVerif.Blocks
 
 /-! ## the reference evaluator -/
 
@@ -119,5 +120,48 @@ example : DefBeforeUse demoBlock := by unfold DefBeforeUse demoBlock; decide
 /-- a store to the alloc between load and return blocks the move -/
 example : fixBlock [⟨0, .pure, []⟩, ⟨1, .load 0, [0]⟩, ⟨2, .call [0], [0]⟩, ⟨4, .store [0], [0]⟩, ⟨3, .ret, [1, 2]⟩]
     = [⟨0, .pure, []⟩, ⟨1, .load 0, [0]⟩, ⟨2, .call [0], [0]⟩, ⟨4, .store [0], [0]⟩, ⟨3, .ret, [1, 2]⟩] := by decide
+
+/-! ## `cl/blocks` : block kinds and compilation order (validated output, see Model/Blocks.lean)
+
+`blocks.Infos` itself is not modelled; what IS proved: the executable reachability closure decides paths, the blocks the
+specification calls *always* are visited exactly once by every complete execution path, and every output the validator
+`checkInfos` accepts (the check runs it on the REAL output for every generated function) has a compilation order that is a
+permutation of the blocks, marks exactly the blocks lying on a cycle as *loop*, and marks only such once-visited blocks
+as *always*. -/
+
+/-- the executable reachability answer is the truth: `b` is reachable from `a` by a non-empty path iff it says so -/
+theorem blocks_reach_spec (g : CFG) (a b : Nat) (r : Bool) (h : reaches? g a b = some r) : r = true ↔ Reach g a b :=
+  reaches_spec h
+
+/-- a block the specification calls *always* (the entry nothing jumps back to; the unique exit) is visited exactly once
+    by every complete execution path of a well-formed graph -/
+theorem blocks_always_once (g : CFG) (hwf : wellFormed g = true) (b : Nat) (h : alwaysSpec g b = true) :
+    AlwaysOnce g b :=
+  always_once (wf_of_wellFormed hwf) h
+
+/-- soundness of the validator, for every graph and every claimed output -/
+theorem blocks_check_sound (g : CFG) (infos : List Info) (h : checkInfos g infos = true) :
+    (orderOf infos (g.length + 1) 0).Perm (List.range g.length) ∧
+    ∀ b, b < g.length → ∃ i, infos[b]? = some i ∧
+      (i.kind = .loop ↔ Reach g b b) ∧ (i.kind = .always → AlwaysOnce g b) := by
+  obtain ⟨hwf, _, hperm, hk⟩ := check_parts h
+  refine ⟨List.isPerm_iff.mp hperm, ?_⟩
+  intro b hb
+  obtain ⟨i, k, hi, hs, hik⟩ := kinds_of_check hk hb
+  refine ⟨i, hi, ?_, ?_⟩
+  · rw [hik]; exact specKind_loop hs
+  · intro ha
+    rw [hik] at ha
+    subst ha
+    exact always_once (wf_of_wellFormed hwf) (specKind_always hs)
+
+/-- `for i := 0; i < n; i++ { … }; return` : entry 0 → header 1 → body 2 → 1, header → exit 3 -/
+def loopCFG : CFG := [⟨[1], 0⟩, ⟨[2, 3], 2⟩, ⟨[1], 1⟩, ⟨[], 1⟩]
+
+example : checkInfos loopCFG [⟨.always, some 1⟩, ⟨.loop, some 2⟩, ⟨.loop, some 3⟩, ⟨.always, none⟩] = true := by decide
+/-- calling the loop body *cond* is rejected -/
+example : checkInfos loopCFG [⟨.always, some 1⟩, ⟨.loop, some 2⟩, ⟨.cond, some 3⟩, ⟨.always, none⟩] = false := by decide
+/-- an order that skips a block is rejected -/
+example : checkInfos loopCFG [⟨.always, some 1⟩, ⟨.loop, some 3⟩, ⟨.loop, some 3⟩, ⟨.always, none⟩] = false := by decide
 
 end LlgoVerif.C01
